@@ -58,6 +58,10 @@ def spec_der_tree(r, s):
 
 
 def run(ctx):
+    # no hidden state: what this property is about keeps nothing at module level between calls (memo tables keyed by less than
+    # the value depends on, caches of the outside world, counters) -- a verdict on one call must hold for every later call
+    from .. import rules as _rules
+    _rules.check_hidden_state(ctx, 'C01.11', ['bits.ecmath.sign', 'bits.utils.sig', 'bits.utils.sig_verify', 'bits.utils.der_encode_sig', 'bits.utils.der_decode_sig', 'bits.utils.ensure_sig_low_s'])
     R = ctx.R
     fs = ctx.fn("bits.ecmath.sign")
     ev = ctx.evaluator(opaque={SMUL, "bits.ecmath.point_add"})
@@ -166,7 +170,17 @@ def run(ctx):
     c03.check_helpers(ctx, "C01.9")  # the field helpers every point operation goes through
     c03.check_privkey_int(ctx, "C01.9")  # every valid key in [1, n-1] is accepted by sig() / pub()
 
-    # ---- sig(): modes
+    check_sig_modes(ctx)
+    check_sig_verify_flags(ctx)
+
+
+def check_sig_modes(ctx, oid="C01.7"):
+    """bits.utils.sig in its four modes (pre-image or not, flag given or not): what is hashed, what is appended, the key
+    validation, and the refusal of a pre-image whose own sighash type differs from the requested one. Shared with the
+    properties whose signatures are made through it (C11, C16)."""
+    R = ctx.R
+    _ev0 = ctx.evaluator()
+    G = (_ev0.const("bits.ecmath", "SECP256K1_Gx"), _ev0.const("bits.ecmath", "SECP256K1_Gy"))
     fsig = ctx.fn("bits.utils.sig")
     evs = ctx.evaluator(opaque={"bits.ecmath.sign", "bits.utils.der_encode_sig"})
     msg, keyb, flag = P("msg", tm.BYTES), P("key", tm.BYTES), P("sighash_flag", tm.ANY)
@@ -187,20 +201,46 @@ def run(ctx):
             else:
                 want = der
             label = "sig(preimage=%s, flag %s)" % (preimage, "given" if given else "None")
-            R.check("C01.7", "TERM-EQ", fsig, label, tm.veq(val, want), "%s: %s" % (label, tm.first_diff(val, want)),
+            R.check(oid, "TERM-EQ", fsig, label, tm.veq(val, want), "%s: %s" % (label, tm.first_diff(val, want)),
                     expected=tm.show(want)[:400], found=tm.show(val)[:400])
             # key validation dominates signing
             ret = ss_.returns()
             kv = bool(ret) and all(rules.exit_has_fact(e, tm.cmp("eq", tm.length(keyb), 32)) and
                                    ival.subset(ival.ivals(tm.b2i(keyb, "big"), rules.all_facts(e)), 1, N - 1) for e in ret)
-            R.check("C01.7", "DOM", fsig, label + ": key validated (32 bytes, 0 < k < N)", kv,
+            R.check(oid, "DOM", fsig, label + ": key validated (32 bytes, 0 < k < N)", kv,
                     "the signing key is not validated before use")
             if given and preimage:
                 chk = any(e.exc == "AssertionError" and any(tm.veq(g, tm.cmp("ne", tm.b2i(tm.slc(msg, -4, None), "little"), flag)) for g in e.guard)
                           for e in ss_.raises())
-                R.check("C01.7", "DOM", fsig, label + ": preimage flag must equal the argument", chk,
+                R.check(oid, "DOM", fsig, label + ": preimage flag must equal the argument", chk,
                         "no check that the preimage's trailing sighash equals the requested flag")
     evs.assumptions = {}
+
+
+def check_sig_verify_flags(ctx, oid="C01.12"):
+    """sig_verify reads the sighash type from the signature's last byte and otherwise only decodes and verifies: with the DER
+    decoder, the key decoder and the curve verification scripted to succeed, every one of the 256 type bytes (the signer appends
+    whatever type it was asked for, ANYONECANPAY combinations included) gives 'OK' -- no further refusal hides in the wrapper."""
+    R = ctx.R
+    fsv = ctx.fn("bits.utils.sig_verify")
+    ev = ctx.evaluator(opaque={"bits.utils.der_decode_sig", "bits.utils.point", "bits.ecmath.verify", "bits.crypto.hash256"})
+    sig_ = P(fsv.params()[0], tm.BYTES)
+    pre = P("msg_preimage", tm.BOOL)
+    flags = range(256) if ctx.thorough else (0, 1, 2, 3, 4, 0x7F, 0x80, 0x81, 0x82, 0x83, 0xFF)
+    bad = []
+    for preimage in (False, True):
+        for b in flags:
+            ev.assumptions = {pre: preimage}
+            ev.bind = {tm.idx(sig_, -1): b}
+            # scripted: decoding and verification succeed, i.e. no handler of sig_verify runs ("the verification raised" IS its
+            # failure report): every "a handler ran" condition is false; everything else is decided strictly
+            k, v = rules.strict_outcome(rules.without_handler_flows(ev.run(fsv)))
+            if not (k == "return" and v == "OK"):
+                bad.append((b, preimage, k, tm.show(v)[:80]))
+    ev.assumptions, ev.bind = {}, {}
+    R.check(oid, "DECISION-TABLE", fsv, "sig_verify: 'OK' for each of %d sighash type bytes x 2 modes once decoding and verification succeed" % len(list(flags)), not bad,
+            "a signature with type byte 0x%02x (pre-image mode %s) is %s %s although it decodes and verifies" % (bad[0] if bad else (0, "", "", "")),
+            example="a signature made with SIGHASH_ALL|ANYONECANPAY (0x81)")
 
 
 def check_der(ctx, oid="C01.6"):
